@@ -32,7 +32,7 @@ CHUNK = 24
 def bounds(tier):
     return {"n-ary": "3- and 4-operand Add/Compose/Hstack/Vstack/Diag over 5 leaves (quick) / 3-operand over 11 leaves (thorough)", "tree nodes": "1 over 11 leaves (all axes), 2 over 5 leaves (all axes)" if tier == "quick"
             else "<= 2 over 11 leaves (all axes), 3 over 3 leaves",
-            "3-D operands": "7 leaves on [2,3,2] [2,3,4] [3,2,4] [2,2,2] [2,3,3] [3,3,2] (repeated lengths): every 1-node tree and every ill-typed pair",
+            "unary chains": "all 8^3 chains of {Conj, H, Neg, N, c1*, c2*, *c1, *=c2} (complex c1, c2) over 3 leaves", "3-D operands": "7 leaves on [2,3,2] [2,3,4] [3,2,4] [2,2,2] [2,3,3] [3,3,2] (repeated lengths): every 1-node tree and every ill-typed pair",
             "ill-typed": "every ordered pair over 11 leaves + 6 shape-coincidence operands ([6], [2], [2,3,1], [1,2,3], [2,3,2]) x {Compose, Add, Sub, Hstack/Vstack axis in [-nd-1, nd], None, Diag iaxis/oaxis in [-nd, nd) and None} rejected by the reference shape calculus"}
 
 
@@ -50,6 +50,27 @@ def gen_cases(tier, seed):
             cases.append(dict(kind="tree", spec=t))
         for t in programs.trees(programs.SUB3, 3, all_axes=False, scalars=programs.SCALARS[:1]):
             cases.append(dict(kind="tree", spec=t))
+    # chains of three unary operations with complex scalars on one leaf ((a*A).H*b, (a*A).N, conj((A*a).H), ...): scalar
+    # factors that end up next to each other inside a flattened composition
+    c1, c2 = programs.SCALARS[0], programs.SCALARS[3]
+    un = [lambda t: dict(op="Conj", kids=[t]), lambda t: dict(op="H", kids=[t]), lambda t: dict(op="Neg", kids=[t]),
+          lambda t: dict(op="N", kids=[t]), lambda t: dict(op="LScale", c=c1, kids=[t]), lambda t: dict(op="LScale", c=c2, kids=[t]),
+          lambda t: dict(op="RScale", c=c1, kids=[t]), lambda t: dict(op="IScale", c=c2, kids=[t])]
+    for leaf in (programs.LEAVES[0], programs.LEAVES[3], programs.LEAVES[7]):
+        for f1 in un:
+            for f2 in un:
+                for f3 in un:
+                    cases.append(dict(kind="tree", spec=f3(f2(f1(leaf)))))
+    # sums and differences in which a scaled identity is the first, the last or a middle term (the usual regulariser)
+    I23 = dict(op="Identity", shape=[2, 3], ish=[2, 3], osh=[2, 3])
+    for X in [l for l in programs.LEAVES if l["ish"] == [2, 3] and l["osh"] == [2, 3]]:
+        for c in (programs.SCALARS[0], programs.SCALARS[1], 1, 0):
+            cI = dict(op="LScale", c=c, kids=[I23])
+            Ic = dict(op="RScale", c=c, kids=[I23]) if c in programs.SCALARS[:2] else cI
+            for t in (dict(op="Add", kids=[cI, X]), dict(op="Add", kids=[X, cI]), dict(op="Sub", kids=[cI, X]), dict(op="Sub", kids=[X, Ic]),
+                      dict(op="AddN", kids=[cI, X, X]), dict(op="AddN", kids=[X, cI, X]), dict(op="AddN", kids=[I23, cI, X]),
+                      dict(op="IAdd", kids=[cI, X]), dict(op="Add", kids=[dict(op="Add", kids=[cI, X]), Ic])):
+                cases.append(dict(kind="tree", spec=t))
     for t in programs.trees(programs.LEAVES3, 1):
         cases.append(dict(kind="tree", spec=t))
     for t in programs.ill_typed_pairs(programs.LEAVES3):
